@@ -1446,6 +1446,14 @@ var c08CensusFiles = []string{
 	"pkg/expressions/stdlib/funcsRange.go", "pkg/expressions/stdlib/drawing.go", "pkg/expressions/stdlib/funcsCommon.go",
 	"pkg/expressions/stdlib/funcsMath.go", "pkg/expressions/stdlib/errors.go", "pkg/expressions/stdlib/util.go",
 	"pkg/expressions/stdmath/ops.go", "pkg/stringSplitter/splitter.go",
+	// the rest of the helper library (not anchors of the property text, but every helper is in its quantifier)
+	"pkg/expressions/stdlib/builder.go", "pkg/expressions/stdlib/funcsComparators.go", "pkg/expressions/stdlib/funcsCsv.go",
+	"pkg/expressions/stdlib/funcsJson.go", "pkg/expressions/stdlib/funcsLookups.go", "pkg/expressions/stdlib/funcsPath.go",
+	"pkg/expressions/stdlib/funcsTime.go", "pkg/expressions/stdlib/funcsType.go", "pkg/expressions/stdlib/stages.go",
+	"pkg/expressions/stdlib/stagesStaticEval.go", "pkg/expressions/stdlib/stagesTypedEval.go",
+	"pkg/expressions/contextArray.go", "pkg/expressions/stageAnalysis.go", "pkg/expressions/funcfile/stage.go",
+	"pkg/expressions/stdmath/parser.go", "pkg/expressions/stdmath/tokenizer.go", "pkg/expressions/stdmath/simplify.go",
+	"pkg/expressions/stdmath/expression.go",
 }
 
 func c08LeanStrs(l []string) []string {
@@ -1512,6 +1520,15 @@ func c08IsLit(e ast.Expr) bool {
 
 // c08NonZeroLit: an integer or float literal other than zero.
 func c08NonZeroLit(e ast.Expr) bool {
+	// the duration units of package time are non-zero constants
+	if sel, ok := e.(*ast.SelectorExpr); ok {
+		if id, ok := sel.X.(*ast.Ident); ok && id.Name == "time" {
+			switch sel.Sel.Name {
+			case "Nanosecond", "Microsecond", "Millisecond", "Second", "Minute", "Hour":
+				return true
+			}
+		}
+	}
 	if !c08IsLit(e) {
 		return false
 	}
